@@ -4,6 +4,7 @@ differ.  A *finding* is (property id, message); which findings count for which c
 by the caller (`check`)."""
 import traceback
 import numpy as np
+import jax
 import jax.numpy as jnp
 
 from world import *  # noqa
@@ -107,6 +108,16 @@ def expr_matrix(step):
 
 def lean_params(step):
     return {k: f2b(v) for k, v in step.get("params", {}).items()}
+
+
+def cfg_key():
+    """the current PRNG key of the library's Config singleton, read without consuming it"""
+    try:
+        from photon_weave.photon_weave import Config
+        k = Config()._key
+        return np.asarray(jax.random.key_data(k) if hasattr(jax.random, "key_data") else k).tolist()
+    except Exception:
+        return None
 
 
 class Finding:
@@ -488,6 +499,8 @@ class Runner:
             calls = None
         n0 = len(self.findings)
         self._rejected = False
+        self._key0 = cfg_key()
+        self._dead0 = [bool(getattr(x, "measured", False)) for x in w.subs]
         twins = self.value_twins() if self.prog.get("focus") == "C18" else None
         getattr(self, "do_" + kind)(i, st, before)
         focus = self.prog.get("focus")
@@ -661,6 +674,17 @@ class Runner:
     def after_reject(self, i, st, before, prop):
         """after a rejected call the physical state and the object graph must be as before"""
         self._rejected = True
+        if getattr(self, "_key0", None) is not None and cfg_key() != self._key0:
+            # "the program can continue as if the call had not been made": a rejected request that consumes a random
+            # key shifts every later draw of the run
+            for pr in dict.fromkeys([prop, "C17", "C14"]):
+                self.findings.append(Finding(pr, "a rejected request consumed a random key: the continuation is no longer the one of the same program without that request", i))
+        dead1 = [bool(getattr(x, "measured", False)) for x in self.w.subs]
+        newly = [k for k, (a, b) in enumerate(zip(getattr(self, "_dead0", dead1), dead1)) if b and not a]
+        if newly:
+            for pr in dict.fromkeys([prop, "C17"]):
+                self.findings.append(Finding(pr, f"a rejected request destroyed subsystem(s) {newly}", i))
+            return
         self.compare_states(prop, i, what="joint state after a rejected call")
         for m in check_valid_states(self.w, getattr(self, "vtol", 1e-7)):
             self.findings.append(Finding(prop, "after a rejected call: " + m, i))
